@@ -555,6 +555,17 @@ theorem baseKeyOf_bar (n : List Char) (t : Nat) (sc : Scope) (cl : Nat) (h : ∃
   simp only [List.length_append] at h1
   omega
 
+theorem cacheName_no_bar (s : List Char) : ∀ c ∈ cacheName s, (c != '|') = true := by
+  intro c hc
+  simp only [cacheName, List.mem_flatMap] at hc
+  obtain ⟨x, _, hx⟩ := hc
+  split at hx
+  · simp only [List.mem_cons, List.mem_nil_iff, or_false] at hx
+    rcases hx with rfl | rfl | rfl | rfl <;> decide
+  · rename_i hne
+    simp only [List.mem_singleton] at hx; subst hx
+    simpa using hne
+
 theorem lookup_removeFamily_same (c : Cache) (n : List Char) (t : Nat) (sc : Scope) (cl : Nat)
     (hn : ∀ x ∈ n, (x != '|') = true) :
     (Cache.removeFamily c n t cl).lookup ⟨n, t, sc, cl⟩ = none := by
